@@ -469,6 +469,7 @@ func checkPanicContainment(p *Program, r *Report) {
 		{"(*icc.Profile).Description", p.Method("meta/icc", "Profile", "Description")},
 	}
 	unprot := map[*ssa.Function]string{} // function -> entry that reaches it unprotected
+	reachedFrom := map[*ssa.Function][]*ssa.Function{} // function -> entries that reach it unprotected
 	for _, en := range entries {
 		if en.fn == nil {
 			r.Undecide("C09.P1", "entry "+en.name, "-", "entry point not found")
@@ -488,6 +489,7 @@ func checkPanicContainment(p *Program, r *Report) {
 				return // everything below this frame is contained
 			}
 			nUn++
+			reachedFrom[f] = append(reachedFrom[f], en.fn)
 			if _, ok := unprot[f]; !ok {
 				unprot[f] = en.name
 			}
@@ -518,44 +520,50 @@ func checkPanicContainment(p *Program, r *Report) {
 	}
 	sort.Slice(fns, func(i, j int) bool { return fns[i].String() < fns[j].String() })
 	nOps := 0
+	// rule B runs: a function interpreted with bounds tracking, entering neither
+	// recover-armed frames (they contain their own panics) nor itself recursively
+	type bRun struct {
+		e          *Engine
+		outs       []Outcome
+		incomplete string
+	}
+	bRuns := map[*ssa.Function]*bRun{}
+	armed := map[*ssa.Function]bool{}
+	runFrom := func(root *ssa.Function) *bRun {
+		if br, ok := bRuns[root]; ok {
+			return br
+		}
+		be := NewEngine(p)
+		be.EvalInits = true
+		be.TrackBounds = true
+		be.MaxIter, be.MaxForks = 3, 3
+		be.Opaque = func(g *ssa.Function) bool {
+			if g == root {
+				return true // self-recursion: the function is analysed for every argument anyway
+			}
+			v, ok := armed[g]
+			if !ok {
+				v = recoverArmedQuiet(p, g)
+				armed[g] = v
+			}
+			return v
+		}
+		st := newState()
+		s := &Stream{Name: "in"}
+		st.pos[s] = formInt(0)
+		br := &bRun{e: be}
+		br.outs = be.Run(root, setupArgs(be, st, root, s), st)
+		for _, o := range br.outs {
+			if o.Kind == "stuck" || o.Kind == "cutoff" {
+				br.incomplete = o.Kind + " at " + p.Pos(o.Pos) + ": " + o.Why
+			}
+		}
+		bRuns[root] = br
+		return br
+	}
 	for _, f := range fns {
 		r.SawFn(shortFn(f))
 		site := map[string]int{}
-		// rule B: the function interpreted with bounds tracking (once, on demand)
-		var be *Engine
-		var bouts []Outcome
-		incomplete := ""
-		runB := func() {
-			if be != nil {
-				return
-			}
-			be = NewEngine(p)
-			be.EvalInits = true
-			be.TrackBounds = true
-			be.MaxIter, be.MaxForks = 3, 3
-			// frames with an armed recover contain their own panics: they need not be entered
-			armed := map[*ssa.Function]bool{}
-			be.Opaque = func(g *ssa.Function) bool {
-				if g == f {
-					return true // self-recursion: the function is analysed for every argument anyway
-				}
-				v, ok := armed[g]
-				if !ok {
-					v = recoverArmedQuiet(p, g)
-					armed[g] = v
-				}
-				return v
-			}
-			st := newState()
-			s := &Stream{Name: "in"}
-			st.pos[s] = formInt(0)
-			bouts = be.Run(f, setupArgs(be, st, f, s), st)
-			for _, o := range bouts {
-				if o.Kind == "stuck" || o.Kind == "cutoff" {
-					incomplete = o.Kind + " at " + p.Pos(o.Pos) + ": " + o.Why
-				}
-			}
-		}
 		for _, op := range riskyOps(f) {
 			nOps++
 			site[op.What]++
@@ -581,19 +589,48 @@ func checkPanicContainment(p *Program, r *Report) {
 					}
 				}
 				if arith {
-					runB()
-					if incomplete == "" {
-						n, ok, how, whyNot := boundsProof(be, bouts, op.In)
+					// (1) the function on its own, for arbitrary arguments
+					br := runFrom(f)
+					if br.incomplete == "" {
+						n, ok, how, whyNot := boundsProof(br.e, br.outs, op.In)
 						if ok && n > 0 {
 							g = fmt.Sprintf("B the bounds are implied by the conditions on every path reaching it (%d path contexts; e.g. %s)", n, how)
-							r.Assume("slices handed to the ICC tag parsers are shorter than 2^32 bytes (cut from tag data sized by 32-bit fields)")
 						} else if n == 0 {
 							ruleBWhy = "the abstract interpretation of " + shortFn(f) + " does not reach it"
 						} else {
 							ruleBWhy = whyNot
 						}
 					} else {
-						ruleBWhy = "the abstract interpretation of " + shortFn(f) + " is incomplete (" + incomplete + ")"
+						ruleBWhy = "the abstract interpretation of " + shortFn(f) + " is incomplete (" + br.incomplete + ")"
+					}
+					// (2) otherwise in its calling contexts: from every entry point that reaches it
+					if g == "" && len(reachedFrom[f]) > 0 && !(len(reachedFrom[f]) == 1 && reachedFrom[f][0] == f) {
+						all, total, how1 := true, 0, ""
+						for _, root := range reachedFrom[f] {
+							cr := runFrom(root)
+							if cr.incomplete != "" {
+								all = false
+								ruleBWhy += "; from " + shortFn(root) + ": interpretation incomplete (" + cr.incomplete + ")"
+								break
+							}
+							n, ok, how, whyNot := boundsProof(cr.e, cr.outs, op.In)
+							if !ok || n == 0 {
+								all = false
+								if n == 0 {
+									whyNot = "not reached"
+								}
+								ruleBWhy += "; from " + shortFn(root) + ": " + whyNot
+								break
+							}
+							total += n
+							how1 = how
+						}
+						if all && total > 0 {
+							g = fmt.Sprintf("B the bounds are implied by the conditions on every path reaching it from the entry points (%d path contexts; e.g. %s)", total, how1)
+						}
+					}
+					if g != "" {
+						r.Assume("slices handed to the ICC tag parsers are shorter than 2^32 bytes (cut from tag data sized by 32-bit fields)")
 					}
 				} else {
 					ruleBWhy = "the bound is computed with arithmetic narrower than 32 bits or a narrowing conversion"
